@@ -201,6 +201,15 @@ def check_bruteforce_kw(c, P):
         except (KeyError, ValueError, TypeError, ZeroDivisionError) as ex:
             v.append("%s.solve_bruteforce(%r) raised %s" % (cls, kw, type(ex).__name__))
             continue
+        if "A" in kw and "B" in kw:
+            # the same weights given by position (A, B in that order in every class that has both)
+            try:
+                pos_all = P.solve_bruteforce(kw["A"], kw["B"], all_solutions=True)
+                if {_canon(g) for g in pos_all} != want:
+                    v.append("%s.solve_bruteforce(%s, %s, all_solutions=True) -- weights by position -- returned %d answers that are "
+                             "not the decoded minimisers of to_qubo(%s, %s)" % (cls, kw["A"], kw["B"], len(pos_all), kw["A"], kw["B"]))
+            except (KeyError, ValueError, TypeError, ZeroDivisionError) as ex:
+                v.append("%s.solve_bruteforce(%s, %s) raised %s" % (cls, kw["A"], kw["B"], type(ex).__name__))
         if {_canon(g) for g in got_all} != want:
             v.append("%s.solve_bruteforce(all_solutions=True, %s) returned %d answers that are not the decoded minimisers of to_qubo(%s)"
                      % (cls, ", ".join("%s=%s" % kv for kv in kw.items()), len(got_all), ", ".join("%s=%s" % kv for kv in kw.items())))
